@@ -60,6 +60,8 @@ def render(case, k):
             path = {"plain": path, "underlib": "lib/" + path, "libparent": "deps/lib/" + path, "libfile": path, "viadir": "d/" + path}[case.get("place", "plain")]
         has_main = i <= case["mains"]
         text = base_file(i, has_main, df, k + i, with_include=(ff == "include"))
+        if i == 2 and case.get("link"):
+            text = text.replace("pragma circom 2.0.0;\n", 'pragma circom 2.0.0;\ninclude "f1.circom";\n', 1)
         f = {"path": path, "named": True, "text": text}
         if i == 1 and case.get("place") == "viadir":
             f["named"] = False          # handed over through its directory (see `argv_extras`)
